@@ -9,6 +9,9 @@ for m in sorted(glob.glob(os.path.join(VERIF, "seeded", "C*", "meta.json"))):
     det = d.get("detection", {})
     first = "; ".join(f"{c}: {'caught' if v.get('caught') else 'MISSED'}" for c, v in det.items())
     later = d.get("after_strengthening", "")
+    das = d.get("detection_after_strengthening", {})
+    if das:
+        later = "; ".join(f"{c}: {'caught' if v.get('caught') else 'MISSED'} (re-run at /verif {v.get('verif_commit')})" for c, v in das.items()) + " - " + later
     rows.append((sid, d.get("title", d.get("what_it_breaks", ""))[:90].replace("|", "/"), d.get("needs_to_manifest", "")[:140].replace("|", "/").replace("\n", " "), first, later))
 out = ["# Independently seeded changes and their detection", "",
        "Each change was produced by a sub-agent that saw only the property text and a scratch worktree, and was confirmed with tools/ingest_seed.py (demo passes on the clean tree and fails with the change, package imports, full existing suite passes with the change).",
